@@ -8,17 +8,10 @@ from sa.core import AnalysisError, Module, Repo, Report, call_name, parent, unpa
 from sa.fold import Folder, SetVal
 from sa.selftest import Edit, Variant
 
-EXPLANATION = (
-    "Whole-package effect/taint lints: (1) no call to an environment-, time-, identity- or randomness-dependent API (positive control "
-    "compiled from a string must match on every run); (2) every set-typed expression (displays, set()/frozenset(), comprehensions, set "
-    "algebra incl. dict-view operators, names and parameters bound to them) is followed to its uses and every order-sensitive use "
-    "(iteration, tuple/list/join/enumerate/star-expansion/pop) is either absent or one of three frozen instances whose harmlessness is "
-    "re-established structurally; (3) no function writes module-level or class-level state (global statements, mutation of module "
-    "containers, mutable class attributes), no mutable default argument is mutated, every memoising decorator is classified (value-keyed "
-    "pure function, or instance-keyed with the clear-before-use discipline); (4) generated ids come from a lowest-free search."
-)
-ASSUMPTIONS = ["lxml and skia-pathops are deterministic functions of their inputs",
-               "dict / lxml attribute iteration order is insertion (document) order, a function of the input"]
+from sa.texts import T as _T
+
+EXPLANATION = _T["C16"]["explanation"] + " Not decided: " + _T["C16"]["not_decided"] + "."
+ASSUMPTIONS = _T["C16"]["assumptions"]
 P = "C16"
 
 FORBIDDEN_CALLS = {"id", "hash", "getpid", "urandom", "getenv", "uuid1", "uuid4", "time", "monotonic", "perf_counter", "now", "today",
